@@ -100,6 +100,31 @@ fn intra_case(g: &mut Gen, cfg: &PicCfg) -> Verdict {
             same_tr = true;
         }
     }
+    // one picture in eight is preceded - on this thread, in a decoder of its own - by a small
+    // sibling carrying the picture's first macroblock (the very same blocks) in a picture of 1..15
+    // x 1..15 samples, which crops them: what a decoder instance computes for a block must not
+    // reach another instance, however alike their data
+    if g.chance(1, 8) && !pic.mbs.is_empty() {
+        let (sw, sh) = (g.range(1, 15) as u16, g.range(1, 15) as u16);
+        let ssize = match mode {
+            Mode::Sorenson => Size::Custom8(sw as u8, sh as u8),
+            Mode::Standard => Size::StdCustom(((sw + 3) / 4 * 4).max(4), ((sh + 3) / 4 * 4).max(4)),
+        };
+        let mut shdr = pic.hdr.clone();
+        shdr.size = ssize;
+        if mode == Mode::Standard {
+            shdr.plus = PlusForm::Full;
+        }
+        let mut first = pic.mbs[0].clone();
+        first.stuffing = 0;
+        let sib = Pic { hdr: shdr, mbs: vec![first], trailing_zero_bits: 0 };
+        if let Err(m) = check_intra(&sib) {
+            if m.starts_with("HARNESS") {
+                panic!("{}", m);
+            }
+            return Verdict::fail(format!("(small sibling picture {:?} with the first macroblock of the picture) {}", ssize, m));
+        }
+    }
     g.describe(|| describe_pic(&pic));
     match check_intra_on(&pic, &mut st).map_err(|m| if pre.is_empty() { m } else { format!("(on a decoder with an earlier history) {}", m) }) {
         Err(m) => {
